@@ -868,7 +868,10 @@ where
         // Remove from trie (reconstruct key first)
         let key = self.trie.restore_string(node_id as u32)
             .ok_or_else(|| ZiporaError::not_found("Could not restore key from node ID"))?;
-        self.trie.remove(&key)?;
+        if !self.trie.remove(&key)? && self.trie.contains(&key) {
+            // e.g. the LOUDS backend cannot delete keys: refuse instead of leaving the key behind
+            return Err(ZiporaError::not_supported("underlying trie could not remove the key"));
+        }
 
         // Mark record as removed
         if (id as usize) < self.record_to_node_map.len() {
